@@ -231,6 +231,12 @@ class SpanWrappingMatcher(wrappers.WrappingMatcher):
         self.child.skip_to(id)
         self._find_next()
 
+    def skip_to_quality(self, minquality):
+        skipped = self.child.skip_to_quality(minquality / self.boost)
+        # Move on to the next document that actually has matching spans
+        self._find_next()
+        return skipped
+
     def all_ids(self):
         while self.is_active():
             if self.spans():
